@@ -75,6 +75,14 @@ func (e *Env) heapSet(st *State, name, sort, term string) {
 	st.heap[name] = term
 }
 
+// noteWrite records which reference of a heap array was written (used by loop cutting to
+// keep objects allocated before the loop intact when only fresh objects are written).
+func (e *Env) noteWrite(name, ref string) {
+	if e.writeLog != nil {
+		e.writeLog[name] = append(e.writeLog[name], ref)
+	}
+}
+
 func fieldPathString(root types.Type, path []int) string {
 	var sb strings.Builder
 	t := root
@@ -109,6 +117,53 @@ func (e *Env) locName(p *Ptr, l Leaf) (string, string) {
 	return "", ""
 }
 
+func isIfaceType(t types.Type) bool {
+	_, ok := t.Underlying().(*types.Interface)
+	return ok
+}
+
+// entryClosed states, once per heap array, that the heap at function entry only contains
+// references to objects that existed at entry (and interface values that existed at entry).
+func (e *Env) entryClosed(name, srt string, l Leaf) {
+	if e.next0 == "" || e.declared["closed:"+name] {
+		return
+	}
+	isRef := isRefType(l.Typ) || strings.HasSuffix(l.Path, "#arr")
+	isIf := isIfaceType(l.Typ)
+	if !isRef && !isIf {
+		return
+	}
+	e.declared["closed:"+name] = true
+	arr := q(name + "@0")
+	if !e.declared[name+"@0"] {
+		return
+	}
+	var sel, decl string
+	if strings.HasPrefix(name, "F!") {
+		sel, decl = "(select "+arr+" |$r|)", "((|$r| Int))"
+	} else if strings.HasPrefix(name, "E!") {
+		sel, decl = "(select (select "+arr+" |$r|) |$j|)", "((|$r| Int) (|$j| Int))"
+	} else {
+		return
+	}
+	var fact string
+	if isRef {
+		fact = "(< " + sel + " " + e.next0 + ")"
+	} else {
+		e.declAtEntry()
+		fact = "(atentry " + sel + ")"
+	}
+	e.sess.Cmd("(assert (forall " + decl + " (! " + fact + " :pattern (" + sel + "))))")
+}
+
+func (e *Env) declAtEntry() {
+	if !e.declared["atentry"] {
+		e.declared["atentry"] = true
+		e.sess.Cmd("(declare-fun atentry (Int) Bool)")
+		e.sess.Cmd("(assert (atentry 0))")
+	}
+}
+
 func isRefType(t types.Type) bool {
 	switch t.Underlying().(type) {
 	case *types.Pointer, *types.Map:
@@ -131,6 +186,9 @@ func (e *Env) load(st *State, p *Ptr) Value {
 			ts[i] = mkSelect(arr, p.Ref)
 		} else {
 			ts[i] = mkSelect(mkSelect(arr, p.Ref), p.Idx)
+		}
+		if e.quantDepth == 0 {
+			e.entryClosed(name, srt, l)
 		}
 		if l.Sort == sInt {
 			if isRefType(l.Typ) || l.Path == "#arr" || strings.HasSuffix(l.Path, "#arr") {
@@ -177,6 +235,7 @@ func (e *Env) store(st *State, p *Ptr, v Value) {
 			na = mkStore(arr, p.Ref, mkStore(mkSelect(arr, p.Ref), p.Idx, ts[i]))
 		}
 		e.heapSet(st, name, srt, e.maybeName(na, srt))
+		e.noteWrite(name, p.Ref)
 	}
 }
 
@@ -184,6 +243,9 @@ func (e *Env) store(st *State, p *Ptr, v Value) {
 func (e *Env) alloc(st *State) string {
 	r := e.maybeNameForce(st.next, sInt, "ref")
 	st.next = sx("+", r, "1")
+	if e.allocLog != nil {
+		e.allocLog[r] = true
+	}
 	return r
 }
 
@@ -216,6 +278,7 @@ func (e *Env) initBacking(st *State, r string, et types.Type) {
 		srt := heapSort("E", l.Sort, "")
 		arr := e.heapGet(st, name, srt)
 		e.heapSet(st, name, srt, e.maybeName(mkStore(arr, r, constArray("(Array Int "+l.Sort+")", e.zeroLeaf(l))), srt))
+		e.noteWrite(name, r)
 	}
 }
 
@@ -280,6 +343,8 @@ func (e *Env) mapUpdate(st *State, m *MapV, key, val Value) {
 	dom := e.heapGet(st, dn, ds)
 	was := e.maybeName(mkSelect(mkSelect(dom, m.Ref), k), sBool)
 	e.heapSet(st, dn, ds, e.maybeName(mkStore(dom, m.Ref, mkStore(mkSelect(dom, m.Ref), k, tTrue)), ds))
+	e.noteWrite(dn, m.Ref)
+	e.noteWrite(sn, m.Ref)
 	ss := heapSort("F", sInt, "")
 	sz := e.heapGet(st, sn, ss)
 	e.assume(sx("<=", "0", mkSelect(sz, m.Ref)))
@@ -291,6 +356,7 @@ func (e *Env) mapUpdate(st *State, m *MapV, key, val Value) {
 		srt := heapSort("M", l.Sort, ks)
 		arr := e.heapGet(st, name, srt)
 		e.heapSet(st, name, srt, e.maybeName(mkStore(arr, m.Ref, mkStore(mkSelect(arr, m.Ref), k, ts[i])), srt))
+		e.noteWrite(name, m.Ref)
 	}
 }
 
@@ -303,6 +369,8 @@ func (e *Env) mapDelete(st *State, m *MapV, key Value) {
 	was := e.maybeName(mkAnd(mkNot(mkEq(m.Ref, "0")), mkSelect(mkSelect(dom, m.Ref), k)), sBool)
 	// delete on a nil map is a no-op; ref 0 is never a real map so updating it is harmless
 	e.heapSet(st, dn, ds, e.maybeName(mkStore(dom, m.Ref, mkStore(mkSelect(dom, m.Ref), k, tFalse)), ds))
+	e.noteWrite(dn, m.Ref)
+	e.noteWrite(sn, m.Ref)
 	ss := heapSort("F", sInt, "")
 	sz := e.heapGet(st, sn, ss)
 	e.heapSet(st, sn, ss, e.maybeName(mkStore(sz, m.Ref, mkIte(was, sx("-", mkSelect(sz, m.Ref), "1"), mkSelect(sz, m.Ref))), ss))
@@ -315,6 +383,8 @@ func (e *Env) makeMap(st *State, t types.Type) *MapV {
 	ds := heapSort("M", sBool, ks)
 	dom := e.heapGet(st, dn, ds)
 	e.heapSet(st, dn, ds, e.maybeName(mkStore(dom, r, constArray("(Array "+ks+" Bool)", tFalse)), ds))
+	e.noteWrite(dn, r)
+	e.noteWrite(sn, r)
 	ss := heapSort("F", sInt, "")
 	sz := e.heapGet(st, sn, ss)
 	e.heapSet(st, sn, ss, e.maybeName(mkStore(sz, r, "0"), ss))
